@@ -521,12 +521,21 @@ def check_host_setup(run, case):
     text = case['text']
     factory = common.make_factory()
     opts = {'yaql.limitIterators': 1000}
+    if case.get('host_option'):
+        # consumers may keep settings of their own in the options, of any
+        # type
+        opts['host.searchPath'] = ['a', {'b': [1]}]
     engines = []
+    if case.get('legacy_first'):
+        # the host also serves the 0.2 dialect, from the same dictionary
+        import yaql.legacy as _legacy
+        _legacy.YaqlFactory().create(options=opts)
+    base = opts
     for t2l, s2l in case['order']:
         if case.get('sparse'):
             # a new dict per engine that names only what differs from the
             # documented defaults (tuples -> lists on, sets -> lists off)
-            opts = {'yaql.limitIterators': 1000}
+            opts = dict(base)
             if not t2l:
                 opts['yaql.convertTuplesToLists'] = False
             if s2l:
@@ -539,7 +548,9 @@ def check_host_setup(run, case):
         opts.clear()
     run.case(case, True, fp=(text, tuple(map(tuple, case['order'])),
                              bool(case.get('clear')),
-                             bool(case.get('sparse'))),
+                             bool(case.get('sparse')),
+                             bool(case.get('legacy_first')),
+                             bool(case.get('host_option'))),
              cls=['host-setup'] + (['sparse-options']
                                    if case.get('sparse') else []))
     for (t2l, s2l), eng in engines:
@@ -727,7 +738,9 @@ def setup_cases(draw):
         ['[$d, $s]', '[1, [2, 3]]', '$', '[1, 2].toSet()', '{a => [1]}'])),
         'order': [list(o) for o in draw(st.permutations(OPTS))][
             :draw(st.integers(2, 3))],
-        'clear': draw(st.booleans()), 'sparse': draw(st.booleans())}
+        'clear': draw(st.booleans()), 'sparse': draw(st.booleans()),
+        'legacy_first': draw(st.booleans()),
+        'host_option': draw(st.booleans())}
 
 
 def _shard(run, which, n, shard):
